@@ -533,7 +533,7 @@ class Rewriter:
     # R19 small std idioms without a Verus counterpart (each listed in DESIGN 3.2)
     def r19_misc(self, t):
         subs = [
-            (r"\.to_owned\s*\(\s*\)", ".to_vec()", "R19a slice.to_owned() -> to_vec()"),
+            (r"\b([A-Za-z_][A-Za-z_0-9]*)\s*\.\s*to_owned\s*\(\s*\)", r"vstd::slice::slice_to_vec(\1)", "R19a slice.to_owned() -> vstd::slice::slice_to_vec(slice)"),
         ]
         for pat, repl, what in subs:
             out, pos = [], 0
@@ -543,7 +543,7 @@ class Rewriter:
                     continue
                 self.note("R19", t, m.start(), what)
                 out.append(t[pos:m.start()])
-                out.append(keep_lines(m.group(0), repl))
+                out.append(keep_lines(m.group(0), m.expand(repl)))
                 pos = m.end()
             out.append(t[pos:])
             t = "".join(out)
@@ -560,6 +560,7 @@ class FnContract:
         self.ret = None
         self.spec = ""
         self.prologue = ""
+        self.head = ""        # spliced first in the body (hide/reveal headers)
         self.loops = {}       # ordinal -> text
         self.loopends = {}    # ordinal -> text spliced at the end of the loop body
         self.inserts = []     # (where, ordinal, anchor, text)
@@ -592,6 +593,8 @@ def parse_contracts(path):
                 cur.spec += text
             elif kind == "prologue":
                 cur.prologue += text
+            elif kind == "head":
+                cur.head += text
             elif kind == "loop":
                 cur.loops[section[1]] = cur.loops.get(section[1], "") + text
             elif kind == "loopend":
@@ -617,7 +620,7 @@ def parse_contracts(path):
                 flush()
                 cur = line[8:].strip()
                 section = ("items",)
-            elif line.startswith("@") and not line.startswith("@@") and isinstance(cur, FnContract) and re.match(r"@(ret|spec|prologue|loopend|loop|before|after|helper|closure|attr|external_body|borrow)\b", line):
+            elif line.startswith("@") and not line.startswith("@@") and isinstance(cur, FnContract) and re.match(r"@(ret|spec|prologue|head|loopend|loop|before|after|helper|closure|attr|external_body|borrow)\b", line):
                 flush()
                 m = re.match(r"@(\w+)\s*(.*)$", line)
                 d, rest = m.group(1), m.group(2).strip()
@@ -628,6 +631,8 @@ def parse_contracts(path):
                     section = ("spec",)
                 elif d == "prologue":
                     section = ("prologue",)
+                elif d == "head":
+                    section = ("head",)
                 elif d == "loop":
                     section = ("loop", int(rest))
                 elif d == "loopend":
@@ -884,7 +889,10 @@ def extract_fn(sf, owner_item, fn_item, key, contract, log, mode="body"):
     helper_texts = []
     for (name, sig_params, hbody, pred) in rw.helpers:
         helper_texts.append((name, rw.helper_fn_name(name), sig_params, hbody))
-    return attrs + out + " {" + pro + cpro + body + "}" + tail, first_line, helper_texts, info
+    chead = ""
+    if contract and contract.head.strip():
+        chead = S_IN + "\n" + contract.head.rstrip() + "\n" + S_OUT
+    return attrs + out + " {" + chead + pro + cpro + body + "}" + tail, first_line, helper_texts, info
 
 
 def render_with_map(chunks):
